@@ -1,5 +1,6 @@
-// RC2: conformance to RFC 2268 (C09), round trip (C01), dev-profile obligations incl. all table indices (C20).
-// All D.  Key expansion is decided for key length T and effective key length T1 both symbolic.
+// RC2: conformance to RFC 2268 (C09), dev-profile obligations incl. all table indices (C20); round trip: rt.rs.
+// Data path: D on an arbitrary round-key state.  Key expansion: panic-freedom for all (T, T1) + W wiring of the constructors
+// (conformance of the expansion itself did not finish in any formulation, see the comment below).
 use super::prelude::*;
 use crate::Rc2;
 use cipher::{BlockCipherDecrypt, BlockCipherEncrypt, KeyInit};
@@ -17,55 +18,16 @@ fn expand_conf(key: &[u8; 128], len: usize, t1: usize) -> bool {
     ok
 }
 
-//@ harness name=rc2_expand_quick prop=C09,C20 tier=quick bits=146 est=120 cap=1800 desc="D: Rc2::expand_key(key[..T], T1) == RFC 2268 key expansion for key length T symbolic in 1..=16 and effective key length T1 symbolic in 1..=1024 bits, all key bytes; all PITABLE / buffer indices in range, no overflow"
-verif_harness! {
-    name: rc2_expand_quick,
-    bytes: 19,
-    unwind: 130,
-    prop: |inp| {
-        let k16: [u8; 16] = take(inp, 0);
-        let len = inp[16] as usize;
-        let t1 = take_u16(inp, 17) as usize;
-        vassume!(1 <= len && len <= 16);
-        vassume!(1 <= t1 && t1 <= 1024);
-        let mut key = [0u8; 128];
-        let mut i = 0;
-        while i < 16 {
-            key[i] = k16[i];
-            i += 1;
-        }
-        Some(expand_conf(&key, len, t1))
-    }
-}
-
-// Conformance of the key expansion at fixed (T, T1), all key bytes symbolic (the query with T and T1 symbolic, 29 M
-// clauses, did not finish in 30 min with either solver, see rc2_expand_full).
-macro_rules! expand_at {
-    ($name:ident, $t:expr, $t1:expr) => {
-        verif_harness! {
-            name: $name,
-            bytes: $t,
-            unwind: 130,
-            prop: |inp| {
-                let mut key = [0u8; 128];
-                let mut i = 0;
-                while i < $t {
-                    key[i] = inp[i];
-                    i += 1;
-                }
-                Some(expand_conf(&key, $t, $t1))
-            }
-        }
-    };
-}
-//@ harness name=rc2_expand_k8_t64 prop=C09 tier=quick bits=64 est=200 desc="D: Rc2::expand_key(key, 64) == RFC 2268 key expansion for all 2^64 keys of 8 bytes (T = 8, T1 = 64: the new_from_slice default for 8-byte keys)"
-expand_at!(rc2_expand_k8_t64, 8, 64);
-//@ harness name=rc2_expand_k16_t128 prop=C09 tier=quick bits=128 est=200 desc="D: Rc2::expand_key(key, 128) == RFC 2268 key expansion for all 2^128 keys of 16 bytes (T = 16, T1 = 128)"
-expand_at!(rc2_expand_k16_t128, 16, 128);
-//@ harness name=rc2_expand_k5_t40 prop=C09 tier=quick bits=40 est=200 desc="D: Rc2::expand_key(key, 40) == RFC 2268 key expansion for all 2^40 keys of 5 bytes (T = 5, T1 = 40: 40-bit export keys)"
-expand_at!(rc2_expand_k5_t40, 5, 40);
-
-//@ harness name=rc2_expand_safe prop=C20 tier=quick bits=1042 est=250 desc="D: Rc2::expand_key(key[..T], T1) raises no dev-profile obligation (no index out of range in key_buffer / PI_TABLE, no arithmetic overflow incl. 2u32.pow, no slice-length mismatch) for every key length T in 1..=128, every effective key length T1 in 1..=1024 and all key bytes; no oracle involved"
+// Conformance of Rc2::expand_key to RFC 2268 is NOT decided by a solver query in this suite.  Tried and dropped:
+//   * T and T1 symbolic (every buffer access a symbolic-index access on a 128-byte array, 256 chained PITABLE look-ups per
+//     side: 29 M clauses, 10-14 GB): index-guarded oracle + CaDiCaL 900 s, RFC-loop oracle + Kissat 1800 s -- no answer;
+//   * T and T1 concrete ((8, 64) and (16, 128)), all key bytes symbolic: 900 s -- no answer (the 128-byte buffers are 1024
+//     bits wide, just above CBMC's array-flattening threshold, so both sides go through the array theory and the two
+//     256-step look-up chains are not recognised as the same circuit).
+// What is decided: absence of any panic/overflow for ALL (T, T1) (rc2_expand_safe), the constructors' wiring around
+// expand_key (rc2_new_from_slice, rc2_new_eff_w), the data path and the round trip on an arbitrary round-key state.
+// The oracle's expand_key is validated natively against the RFC 2268 vectors and the repository's vectors (all T1 variants).
+//@ harness name=rc2_expand_safe prop=C20 tier=thorough bits=1042 est=570 desc="D: Rc2::expand_key(key[..T], T1) raises no dev-profile obligation (no index out of range in key_buffer / PI_TABLE, no arithmetic overflow incl. 2u32.pow, no slice-length mismatch) for every key length T in 1..=128, every effective key length T1 in 1..=1024 and all key bytes; no oracle involved"
 verif_harness! {
     name: rc2_expand_safe,
     bytes: 131,
@@ -79,50 +41,6 @@ verif_harness! {
         let k = Rc2::expand_key(&key[..len], t1);
         // use the result so that nothing is sliced away
         Some(k[0] == k[0])
-    }
-}
-
-//@ harness name=rc2_expand_gquick prop=C09,C20 tier=quick bits=146 est=120 cap=1800 desc="TEMP: as rc2_expand_quick against the index-guarded formulation of the oracle"
-verif_harness! {
-    name: rc2_expand_gquick,
-    bytes: 19,
-    unwind: 130,
-    prop: |inp| {
-        let k16: [u8; 16] = take(inp, 0);
-        let len = inp[16] as usize;
-        let t1 = take_u16(inp, 17) as usize;
-        vassume!(1 <= len && len <= 16);
-        vassume!(1 <= t1 && t1 <= 1024);
-        let mut key = [0u8; 128];
-        let mut i = 0;
-        while i < 16 {
-            key[i] = k16[i];
-            i += 1;
-        }
-        let k = Rc2::expand_key(&key[..len], t1);
-        let e = r::expand_key_g(&key, len, t1);
-        let mut ok = true;
-        i = 0;
-        while i < 64 {
-            ok &= k[i] == e[i];
-            i += 1;
-        }
-        Some(ok)
-    }
-}
-
-//@ harness name=rc2_expand_full prop=C09,C20 tier=thorough bits=1042 est=1500 desc="D: Rc2::expand_key(key[..T], T1) == RFC 2268 key expansion for T symbolic in 1..=128 and T1 symbolic in 1..=1024, all key bytes; all indices in range, no overflow"
-verif_harness! {
-    name: rc2_expand_full,
-    bytes: 131,
-    unwind: 130,
-    prop: |inp| {
-        let key: [u8; 128] = take(inp, 0);
-        let len = inp[128] as usize;
-        let t1 = take_u16(inp, 129) as usize;
-        vassume!(1 <= len && len <= 128);
-        vassume!(1 <= t1 && t1 <= 1024);
-        Some(expand_conf(&key, len, t1))
     }
 }
 
